@@ -54,6 +54,10 @@ type handler1 struct {
 	pktBuffer        []snPkts.Packet
 	group            *errgroup.Group
 	transactions     *transactions.TransactionStore
+	// Transactions initiated by the MQTT broker. Their MsgIDs are chosen by the
+	// broker (or by the gateway on its behalf) independently of the MsgIDs
+	// the MQTT-SN client chooses for the transactions in h.transactions.
+	brokerTransactions *transactions.TransactionStore
 	// for testing
 	mockupDialFunc func() net.Conn
 	// Set (atomically) once the topicID sequence has wrapped around. Every ID
@@ -121,6 +125,8 @@ func newHandler(cfg *handlerConfig, predefinedTopics topics.PredefinedTopics,
 		predefinedTopics: predefinedTopics,
 		topicID:          util.NewIDSequence(snPkts.MinTopicAlias, snPkts.MaxTopicAlias),
 		transactions:     transactions.NewTransactionStore(),
+
+		brokerTransactions: transactions.NewTransactionStore(),
 	}
 
 	return h
@@ -346,7 +352,7 @@ func (h *handler1) handleBrokerPublish(ctx context.Context, mqPublish *mqPkts.Pu
 		// an "almost surely available" MsgID :(
 		found := false
 		for i := snPkts.MaxPacketID; i >= snPkts.MinPacketID; i-- {
-			if _, ok := h.transactions.Get(i); !ok {
+			if _, ok := h.brokerTransactions.Get(i); !ok {
 				msgID = i
 				found = true
 				break
@@ -395,7 +401,7 @@ func (h *handler1) handleBrokerPublish(ctx context.Context, mqPublish *mqPkts.Pu
 		}
 	}
 
-	h.transactions.Store(msgID, transaction)
+	h.brokerTransactions.Store(msgID, transaction)
 	return transaction.ProceedSN(nextState, snPkt)
 }
 
@@ -470,7 +476,7 @@ func (h *handler1) handleMqtt(ctx context.Context, pkt mqPkts.ControlPacket) err
 
 	// MQTT broker PUBLISH QoS 2 transaction.
 	case *mqPkts.PubrelPacket:
-		transactionx, _ := h.transactions.Get(mqPkt.MessageID)
+		transactionx, _ := h.brokerTransactions.Get(mqPkt.MessageID)
 		transaction, ok := transactionx.(*brokerPublishQOS2Transaction)
 		if !ok {
 			h.log.Error("Unexpected transaction type %T for packet: %v", transactionx, mqPkt)
@@ -914,7 +920,7 @@ func (h *handler1) handleMqttSn(ctx context.Context, pkt snPkts.Packet) error {
 	// packet with an unregistered topic => the gateway initializes
 	// registration and the client must acknowledge it.
 	case *snPkts1.Regack:
-		transactionx, _ := h.transactions.Get(snPkt.MessageID())
+		transactionx, _ := h.brokerTransactions.Get(snPkt.MessageID())
 		if transaction, ok := transactionx.(transactionWithRegack); ok {
 			return transaction.Regack(snPkt)
 		}
@@ -923,7 +929,7 @@ func (h *handler1) handleMqttSn(ctx context.Context, pkt snPkts.Packet) error {
 
 	// MQTT broker PUBLISH QoS 1 transaction.
 	case *snPkts1.Puback:
-		transactionx, _ := h.transactions.Get(snPkt.MessageID())
+		transactionx, _ := h.brokerTransactions.Get(snPkt.MessageID())
 		if transaction, ok := transactionx.(*brokerPublishQOS1Transaction); ok {
 			return transaction.Puback(snPkt)
 		}
@@ -932,7 +938,7 @@ func (h *handler1) handleMqttSn(ctx context.Context, pkt snPkts.Packet) error {
 
 	// MQTT broker PUBLISH QoS 2 transaction.
 	case *snPkts1.Pubrec:
-		transactionx, _ := h.transactions.Get(snPkt.MessageID())
+		transactionx, _ := h.brokerTransactions.Get(snPkt.MessageID())
 		if transaction, ok := transactionx.(*brokerPublishQOS2Transaction); ok {
 			return transaction.Pubrec(snPkt)
 		}
@@ -941,7 +947,7 @@ func (h *handler1) handleMqttSn(ctx context.Context, pkt snPkts.Packet) error {
 
 	// MQTT broker PUBLISH QoS 2 transaction.
 	case *snPkts1.Pubcomp:
-		transactionx, _ := h.transactions.Get(snPkt.MessageID())
+		transactionx, _ := h.brokerTransactions.Get(snPkt.MessageID())
 		if transaction, ok := transactionx.(*brokerPublishQOS2Transaction); ok {
 			return transaction.Pubcomp(snPkt)
 		}
